@@ -469,3 +469,47 @@ ENTRY_POINTS = {
     "C20": ["data.TimePoint.add_truncated", "data.TimePoint.__add__"],
 }
 
+
+
+# Clauses added after the fifth seeding round (DESIGN 9.9), appended to the
+# "decides" part of the explanations above.
+_ROUND5 = {
+    "C01": "R56 for each of the 64 zero/non-zero combinations of the "
+           "duration's unit slots every non-zero unit reaches the result on "
+           "every returning Duration path of TimePoint.__add__ (must-apply "
+           "flow analysis).",
+    "C03": "R57 values are compared half-open with week-year starts; R64 a "
+           "closed-form day count from a week-year start adds a year length "
+           "for every calendar year the start can lie back (symbolic year "
+           "offsets).",
+    "C07": "R58 a refusal conditioned on the text of the string is disjoint "
+           "from every form regex the tables hold for that configuration "
+           "(shape intersection); R59 configuration-dependent maps are "
+           "subscripted only with keys known to be present; R36 no "
+           "zero-legal stored field is read by truthiness in any TimePoint "
+           "method.",
+    "C09": "R59 a lookup in a map whose key set depends on the "
+           "configuration cannot raise KeyError out of the parser (key "
+           "origin followed through locals, parameters, tuple returns).",
+    "C10": "R60 each numeral becomes a number by one int()/float() of the "
+           "whole matched text, times the sign.",
+    "C11": "R16 every non-False answer of Duration.__eq__ has compared the "
+           "two total lengths (decision table).",
+    "C12": "R11 a leap flag is never re-bound to something that is not "
+           "leap-derived.",
+    "C13": "R61 on every path of _get_is_in_bounds answering True each set "
+           "bound (start, min, end, max) is ordered against the point, "
+           "transitively.",
+    "C15": "R62 a leap-year count becomes days only scaled by the "
+           "calendar's leap-day size; R11/R36 over the calendar helpers.",
+    "C17": "R29 the format splitter isolates every %<letter> so the refusal "
+           "of unsupported directives sees them all.",
+    "C19": "R63 outside the data model the raw year of a point is read "
+           "with its converting month/day (week/weekday) properties only "
+           "from a point known to be in the matching form.",
+}
+for _pid, _t in _ROUND5.items():
+    _e = PROPS[_pid]["explanation"]
+    assert " Does not decide:" in _e, _pid
+    PROPS[_pid]["explanation"] = _e.replace(
+        " Does not decide:", " " + _t + " Does not decide:", 1)
